@@ -200,3 +200,44 @@ func (q *QuerySpec) corruptionAt(r *kernel.Rand, p int) Corruption {
 	tok := kernel.Pick(r, alwaysInvalid)
 	return Corruption{Kind: "insert", Pos: p, Bytes: pre + tok + " ", Off: len(pre)}
 }
+
+// escapeCorruptions: an invalid escape sequence inserted inside a string literal of the query; the
+// token at fault starts at the backslash. The character after the backslash may be multi-byte.
+func (q *QuerySpec) escapeCorruptions(r *kernel.Rand) []Corruption {
+	var cs []Corruption
+	bs := q.boundaries()
+	for i, t := range q.Tokens {
+		// the literal part of a string token: after the opening quote or the closing parenthesis of an interpolation
+		var from int
+		switch {
+		case strings.HasPrefix(t, `"`):
+			from = 1
+		case strings.HasPrefix(t, `)`) && strings.HasSuffix(t, `"`):
+			from = 1
+		default:
+			continue
+		}
+		to := len(t)
+		if strings.HasSuffix(t, `"`) {
+			to = len(t) - 1
+		} else if strings.HasSuffix(t, `\(`) {
+			to = len(t) - 2
+		}
+		for p := from; p <= to; p++ {
+			if p < len(t) && t[p]&0xC0 == 0x80 { // inside a multi-byte character
+				continue
+			}
+			if p > 0 && t[p-1] == '\\' { // would change an existing escape
+				continue
+			}
+			if p >= 2 && t[p-2] == '\\' && t[p-1] != '\\' { // right after an escape like \n is fine, \( is not
+				if t[p-1] == '(' {
+					continue
+				}
+			}
+			esc := kernel.Pick(r, []string{`\q`, `\q`, `\★`, `\あ`, `\😀`, `\é`, `\ `, `\x`, `\'`})
+			cs = append(cs, Corruption{Kind: "insert", Pos: bs[i] + p, Bytes: esc, Off: 0})
+		}
+	}
+	return cs
+}
